@@ -19,11 +19,12 @@ pub static PROP: Prop = Prop {
     fixed,
     replay: Some(replay),
     breadcrumb: false,
+    fuzz: &[Fuzz { target: "choice", choice: true, runs: 300000, max_len: 480 }],
 };
 
 fn budget(t: Tier) -> Budget {
     Budget {
-        cases: t.pick(100_000, 3_000_000),
+        cases: t.pick(1_500_000, 20_000_000),
         max_len: 120,
         shards: 16,
         dual_profile: true,
